@@ -21,6 +21,14 @@ type Ctx struct {
 	W    *World
 	Fx   *Facts
 	Tier string
+
+	routesMemo []routeInfo
+	hscope     map[*ssa.Function]bool
+	vfMemo     map[string]*VFlow
+	chMemo     map[string]*Chain
+	c20ok      int
+	c20why     string
+	emitMemo   map[*ssa.Function]*emitSummary
 }
 
 var registry = map[string]propFunc{}
@@ -163,6 +171,8 @@ func doDump(cx *Ctx, what string) {
 				}
 			}
 		}
+	case strings.HasPrefix(what, "paths:"):
+		dumpBoolPaths(cx, strings.TrimPrefix(what, "paths:"))
 	case strings.HasPrefix(what, "vf:"):
 		// vf:<entryKey>:<Owner.Field>  or vf:<entryKey>:call:<calleeSubstring>:<argIdx>
 		parts := strings.SplitN(strings.TrimPrefix(what, "vf:"), ":", 2)
@@ -245,4 +255,34 @@ func doReplay(path, repo, verif string) int {
 	}
 	fmt.Printf("obligation rule=%s key=%s no longer fails\n", rule, key)
 	return 0
+}
+
+func dumpBoolPaths(cx *Ctx, key string) {
+	fn := cx.W.Func(key)
+	if fn == nil {
+		fmt.Println("no such function")
+		return
+	}
+	if fn.Signature.Results().Len() == 1 && fn.Signature.Results().At(0).Type().String() == "bool" {
+		t, f, ok := cx.Fx.boolPaths(fn, 4096)
+		fmt.Println("ok:", ok)
+		for _, p := range t {
+			fmt.Println("TRUE :", atomsString(p.Atoms))
+		}
+		for _, p := range f {
+			fmt.Println("FALSE:", atomsString(p.Atoms))
+		}
+		return
+	}
+	aps, ok := cx.Fx.atomPaths(fn, 4096)
+	fmt.Println("ok:", ok)
+	for _, p := range aps {
+		rv := ""
+		if p.Ret != nil {
+			for _, r := range p.Ret.Results {
+				rv += cx.Fx.path(r) + " "
+			}
+		}
+		fmt.Println("RET", rv, ":", atomsString(p.Atoms))
+	}
 }
